@@ -12,7 +12,7 @@ SENSE = {
     "d2": bytes([0x72, 6, 0x29, 0x00, 0, 0, 0, 0]),
     "f3": bytes([0xF0, 0, 2, 0, 0, 0, 1, 10, 0, 0, 0, 0, 0x04, 0x01, 0, 0, 0, 0]),
 }
-ROUTES = ("direct", "facade_tur", "facade_inquiry", "facade_ata")
+ROUTES = ("direct", "direct_prevraw", "facade_execute", "facade_execute_prevraw", "facade_tur", "facade_inquiry", "facade_ata")
 
 
 class World(object):
@@ -80,16 +80,22 @@ def one(w, tr, prev, st, s, raw, route):
     """set up the history (the command object carries `prev`), then the execution under test"""
     dev = w.device(tr)
     try:
-        if route == "direct":
+        if route.startswith("direct") or route.startswith("facade_execute"):
+            # the same command object is executed twice; the first execution may have asked for raw sense
+            if route.startswith("direct"):
+                ex = dev
+            else:
+                w.state.update(st=0, s=None)
+                ex = mod("pyscsi.pyscsi.scsi").SCSI(dev)
             cmd = cmds.klass("TestUnitReady")(dev.opcodes.TEST_UNIT_READY)
             if prev != "none":
                 w.state.update(st=2, s=SENSE[prev])
                 try:
-                    dev.execute(cmd)
+                    ex.execute(cmd, en_raw_sense=route.endswith("prevraw"))
                 except Exception:
                     pass
             w.state.update(st=st, s=SENSE[s])
-            return observe(lambda: dev.execute(cmd, en_raw_sense=raw) and None, lambda: cmd)
+            return observe(lambda: ex.execute(cmd, en_raw_sense=raw) and None, lambda: cmd)
         w.state.update(st=0, s=None)
         facade = mod("pyscsi.pyscsi.scsi").SCSI(dev)
         if prev != "none":
@@ -148,6 +154,8 @@ def run(chk, replay=None):
                     continue
                 if route != "direct" and c["st"] not in rep:
                     continue
+                if route.endswith("prevraw") and c["prev"] == "none":
+                    continue
                 if route in ("facade_tur", "facade_inquiry") and c["raw"]:
                     continue      # these facade methods never ask for raw sense
                 if route == "facade_ata" and not c["raw"]:
@@ -178,7 +186,6 @@ def run(chk, replay=None):
                 s = rng.choice(["none", "f1", "d2", "f3", "f1"]) if st == 2 else "none"
                 raw = rng.random() < 0.3
                 w.state.update(st=st, s=SENSE[s])
-                cmd.raw_sense_data = None
                 o = observe(lambda: dev.execute(cmd, en_raw_sense=raw) and None, lambda: cmd)
                 seq.append({"tr": tr, "st": st, "s": s, "raw": raw, "o": o, "route": "direct", "prev": "history"})
                 ev.case((tr, "seq", st, s, raw, len(seq)))
